@@ -10,7 +10,7 @@ try:
     results = json.load(open(res_path))
 except Exception:
     results = {}
-EXTRA = {'C03-seed2': ['C01'], 'C14-seed1': ['C04'], 'C16-seed4': ['C10']}
+EXTRA = {'C20-seed11': ['C13'], 'C03-seed2': ['C01'], 'C14-seed1': ['C04'], 'C16-seed4': ['C10']}
 for sid in sorted(os.listdir(os.path.join(ROOT, 'seeded'))):
     sd = os.path.join(ROOT, 'seeded', sid)
     if not os.path.isdir(sd) or (only and sid not in only):
